@@ -9,6 +9,8 @@ namespace w {
 constexpr int NOBJ = 3;    // mock object slots
 constexpr int NSLOT = 8;   // data-driven expectation slots (one site file each)
 constexpr int NLIT = 4;    // literal-site expectation slots (compile-time spellings)
+constexpr int NSC = 2;     // slots of scoped (non-NAMED) expectations alive inside a scoped block
+constexpr int NALL = NSLOT + NLIT + NSC;
 constexpr int NSEQ = 3;    // sequence object slots
 constexpr int NDW = 3;     // deathwatched object slots
 constexpr int NMON = 3;    // lifetime-monitor slots per deathwatched object
